@@ -207,8 +207,8 @@ theorem layStmts_map {α β : Type} (f : α → α) (e : α → β) (he : ∀ x,
   | nil => rfl
   | cons p rest ih => obtain ⟨r, w⟩ := p; simp [layStmts, he, ih]
 
-theorem canon_erase_aux (s : SSheet) : (canon s).erase = s.erase := by
-  simp only [canon, SSheet.erase]
+theorem canonV_erase (s : SSheet) : (canonV s).erase = s.erase := by
+  simp only [canonV, SSheet.erase]
   rw [layStmts_map canonImp SImp.erase canonImp_erase, layStmts_map canonNs SNs.erase canonNs_erase,
     canonRules_erase]
   cases s.charset <;> simp
